@@ -1348,7 +1348,10 @@ class Simplifier:
 
         # Find the first constant arg
         for arg_index, arg in enumerate(coalesce.expressions):
-            if _is_constant(arg):
+            # a NULL literal never ends the COALESCE: the arguments after it still count
+            if _is_constant(arg) and not is_null(arg.unnest()) and not (
+                isinstance(arg, exp.Neg) and is_null(arg.this)
+            ):
                 break
         else:
             return expression
